@@ -34,7 +34,12 @@ func ruleCountByteEOF(ctx *Ctx, rule string) {
 		return
 	}
 	n := 0
-	for _, b := range f.Blocks {
+	// ReadWord and the helpers that did not exist on the reference tree it calls
+	var blocks []*ssa.BasicBlock
+	for _, fr := range ssaq.Frames(f) {
+		blocks = append(blocks, fr.Fn.Blocks...)
+	}
+	for _, b := range blocks {
 		for _, in := range b.Instrs {
 			call, ok := in.(*ssa.Call)
 			if !ok || ssaq.StaticCalleeName(call) != "bufio.(*Reader).ReadByte" {
